@@ -8,6 +8,7 @@ covered by the tie only (xz tool, Wuffs std/lzma + std/xz on every generated pay
 -/
 import WuffsVerif.Proof.LzmaAppend
 import WuffsVerif.Proof.LzmaHeaders
+import WuffsVerif.Proof.LzmaWuffsSim
 import WuffsVerif.Proof.LzmaBound2
 import WuffsVerif.Proof.LzmaFuel
 
@@ -269,6 +270,46 @@ theorem xz_chunk_loop_fuel_irrelevant (f1 f2 : Nat) (dst : Array UInt8) (src : L
 example (rest : List UInt8) (bits : Nat) : WOK ⟨rest, bits, 0xFFFFFFFF⟩ ∧ ProbOK probHalf :=
   ⟨⟨by show (16777216 : Nat) ≤ 4294967295; omega, by show (4294967295 : Nat) < 4294967296; omega⟩,
     probHalf_ok⟩
+
+/-! ## xz_conformance, the part that is a theorem: the Wuffs `std/lzma` decoder
+
+`Model/LzmaWuffs.lean` mirrors `std/lzma/decode_lzma.wuffs` (`do_transform_io?`: LZMA1 header, LZMA2 chunk headers,
+range-decoder start-up with its `#bad code` tests, end-of-chunk tests `stashed_bits == 0` and
+`lzma2_encoded_length_have == want`) and the LITERAL path of `decode_bitstream_slow?`, with the wrapping u32
+arithmetic and the table layout (`probs_ao00[(state << 4) | (pos & pb_mask)]`, `probs_lit[index_lit][tree_node]`) of
+the Wuffs text; whatever a literal-only stream cannot reach answers `unmodelled`.  It is tied to the real decoder by
+the `wdec` op lines (valid, extended and truncated encodings).  The XZ container around the LZMA2 chunks
+(`std/xz/decode_xz.wuffs`), `decode_bitstream_fast!` and the xz tool are covered by the tie only. -/
+
+/-- `xz_conformance_partial` (LZMA): the Wuffs decoder accepts `FileFormatLZMA.Encode(src)` for every `src`,
+    returns exactly `src`, leaves exactly the trailing bytes unread — in particular the first code byte is
+    `0x00`, the initial code is not `0xFFFF_FFFF`, no packet is a non-literal, and the range decoder's `bits`
+    are 0 when `decoded_length` bytes have been produced (no end-of-stream marker is looked for). -/
+theorem wuffs_lzma_accepts (src tail : List UInt8) (hlen : src.length < 2 ^ 63) :
+    WLzma.decodeLzma1 ((encodeLZMA #[] src).toList ++ tail) = WLzma.Res.ok (pushList #[] src) tail :=
+  WLzma.lzma1_accepts src tail hlen
+
+/-- `xz_conformance_partial` (XZ payload): in LZMA2 mode the Wuffs decoder accepts the chunk sequence
+    `encodeXz` writes (any number of 64 KiB chunks, uncompressed `0x01` and LZMA `0xE0` forms, end marker):
+    every chunk header is well formed (properties byte, dictionary reset), every LZMA chunk decodes to its
+    `decoded_length` bytes with exactly `encoded_length` bytes consumed and `bits == 0` at its end. -/
+theorem wuffs_lzma2_accepts (src rest : List UInt8) :
+    WLzma.decodeLzma2 (chunksBytes src ++ 0x00 :: rest) = WLzma.Res.ok (pushList #[] src) rest :=
+  WLzma.lzma2_accepts src rest
+
+/-- … and that chunk sequence is what follows the 24 header bytes of `encodeXz`'s output -/
+theorem xz_payload_is_chunks (src : List UInt8) :
+    ∃ rest, (encodeXz #[] src).toList = xzHeader24 ++ (chunksBytes src ++ 0x00 :: rest) :=
+  ⟨_, encodeXz_toList src⟩
+
+/-- the Wuffs text of "decodeTheNextBym()" and Go's `prob.decodeBit` are the same function on 32-bit states -/
+theorem wuffs_bym_is_decodeBit (p : Nat) (d : RangeDecoder) (hp : p ≤ 2048) (hb : d.bits < d.width)
+    (hw : d.width < 2 ^ 32) : WLzma.bym p d = decodeBit p d :=
+  WLzma.bym_eq p d hp hb hw
+
+/-- instance: a three byte payload followed by two bytes that are not part of the file -/
+example : WLzma.decodeLzma1 ((encodeLZMA #[] [1, 2, 3]).toList ++ [9, 9]) = WLzma.Res.ok #[1, 2, 3] [9, 9] :=
+  wuffs_lzma_accepts [1, 2, 3] [9, 9] (by decide)
 
 /-! ## conformance facts about the fixed header bytes
 
